@@ -50,6 +50,12 @@ C19_STATIC_ALLOW = {
 }
 
 
+# peak resident memory of the heavy units in GB (measured by the builders / the coordinator; everything else is below 2 GB)
+MEM_GB = {'htp_connp_req_data': 13, 'htp_connp_res_data': 13, 'htp_connp_RES_LINE_blank': 10, 'htp_connp_RES_LINE_body': 10, 'htp_connp_RES_LINE_status': 10,
+          'htp_connp_REQ_HEADERS': 8, 'htp_connp_RES_FINALIZE': 6, 'htp_parse_uri_unb': 8, 'htp_connp_RES_BODY_DETERMINE': 6, 'htp_connp_REQ_FINALIZE': 4,
+          'htp_connp_REQ_CONNECT_PROBE_DATA': 4, 'htp_tx_state_response_headers': 6, 'htp_tx_state_response_headers_12': 8, 'htp_parse_hostport': 4}
+
+
 def statics_scan():
     import subprocess, tempfile, shutil
     repo = os.environ.get('VERIF_REPO', '/repo')
@@ -235,7 +241,7 @@ def main(argv):
                     tm = json.load(open(os.path.join(VERIF, 'lib', 'timings.json')))
                 except OSError:
                     tm = {}
-                sel = [u for u in sel if tm.get(u['name'], 0) <= 60 or u['name'] in ('htp_connp_req_data', 'htp_connp_res_data')]
+                sel = [u for u in sel if tm.get(u['name'], 0) <= 60 or u['props'][0] == 'C19' or u['name'] in ('htp_connp_req_data', 'htp_connp_res_data')]
     # longest first, so that the slow units do not end up alone at the tail of the run
     try:
         _tm = json.load(open(os.path.join(VERIF, 'lib', 'timings.json')))
@@ -277,8 +283,26 @@ def main(argv):
             probes = [u for u in probes if _touches(u)]
         sel = sel + probes
     results = []
+    # memory-aware admission: the heavy units (drivers, the RES_LINE cases, REQ_HEADERS, the unbounded URI splitter) need 8-13 GB each; started
+    # together they exceed the box.  A unit is admitted only while the sum of the estimates of the running units stays under the budget.
+    import threading
+    budget = float(os.environ.get('VERIF_MEM_GB', '40'))
+    cond, used = threading.Condition(), [0.0]
+
+    def _run_admitted(u):
+        w = min(float(MEM_GB.get(u['name'].split('#')[0], 13 if u.get('objbits') == 12 else 1.5)), budget)
+        with cond:
+            while used[0] + w > budget and used[0] > 0:
+                cond.wait()
+            used[0] += w
+        try:
+            return vrun.run_unit(u, a.tier, a.keep, a.v)
+        finally:
+            with cond:
+                used[0] -= w
+                cond.notify_all()
     with cf.ThreadPoolExecutor(max_workers=a.j) as ex:
-        futs = {ex.submit(vrun.run_unit, u, a.tier, a.keep, a.v): u for u in sel}
+        futs = {ex.submit(_run_admitted, u): u for u in sel}
         for f in cf.as_completed(futs):
             r = f.result()
             results.append(r)
